@@ -124,7 +124,7 @@ def encode(c, enc):
         return f"stepfilt {c['f']} {enc_list(enc, c['xs'])} {c['w']} {enc.b(c['pad'])}"
     if op == "pitch":
         w = "N" if c["w"] is None else str(c["w"])
-        return f"pitch {enc.time(1.0)} {enc_list(enc, c['xs'])} {w} {enc.b(c['fz'])}"
+        return f"pitch {enc_list(enc, c['xs'])} {w} {enc.b(c['fz'])}"
     if op == "detect":
         pl = c["pl"]
         if enc.mode == "F":
@@ -567,7 +567,8 @@ def corpus():
     yield {"op": "stepfilt", "f": "median", "xs": doc, "w": 5, "pad": False, "grid": True}   # docstring example
     yield {"op": "stepfilt", "f": "median", "xs": doc, "w": 5, "pad": True, "grid": True}
     yield {"op": "stepfilt", "f": "sum", "xs": [1, 2, 4], "w": 8, "pad": True, "grid": True}
-    # recorded findings (known_findings.json): kept so that they are re-observed on every run
+    # regression cases of the repaired defects C20-1, C20-2, C20-4 and the witness of the open finding C20-3
+    # (known_findings.json)
     yield {"op": "znormspk", "rows": [[0.0, 0.0, 1], [0.1, 100.0, 2], [0.2, 120.0, 3], [0.3, 0.0, 4], [0.4, 140.0, 5]],
            "index": 1, "fz": True, "nomodel": True}
     yield {"op": "pitch", "xs": [0.5, 100.0, 0, 200.0], "w": None, "fz": True, "grid": True}
@@ -667,7 +668,7 @@ def gen_pitch(rnd, tier):
             if u < 0.2:
                 xs.append(rnd.choice([0, 0.0]))
             elif u < 0.24:
-                xs.append(rnd.choice([0.5, 0.25, -0.5, 0.75]))   # non-zero values that int() truncates to 0
+                xs.append(rnd.choice([0.5, 0.25, -0.5, 0.75]))   # non-zero values inside (-1, 1): must survive zero removal (C20-2)
             elif dom == "grid":
                 xs.append(rnd.choice([100.0, 120.5, 99.75, 200.0, 87.25, 100.0]))
             elif dom == "int":
